@@ -109,6 +109,12 @@ def kill (P : Params) (proto : Proto) (beh : Beh) (replyLost hasAddr clientOk : 
       -- force kill (immediately when Close failed, after the grace period otherwise)
       ⟨true, true, true, P.waitsForGoroutines, false, cms + (if graceful then P.graceMs else 0)⟩
 
+/-- The net/rpc shutdown race: the plugin has handled `Control.Quit` and is GONE before the host closes its remaining
+streams, so `RPCClient.Close` reports an error for those (the session is already shut down).  `Kill` then takes the
+"close failed" path and calls `runner.Kill` — on a process that has already exited on its own: a no-op.  The plugin
+finished its clean-up; only the test-only "was force-killed" flag is set. -/
+def killGonePeer (P : Params) : Outcome := ⟨true, true, true, P.waitsForGoroutines, true, 0⟩
+
 /-- A `Kill` that begins while an earlier `Kill` of the same client is still running (anywhere between its first
 lock section and the end of its deferred function).  `closeAgainOk`: closing the already closed protocol
 client reports no error (otherwise this call force-kills at once).
